@@ -55,7 +55,7 @@ def _case(draw):
             src += "](u)"
     else:
         src = gen.any_doc_d(d)
-    cfg = d.pick(FIXED_CFGS) if d.chance(0.7) else gen.config_d(d, allow_linkify=False)
+    cfg = gen.maybe_late(d, d.pick(FIXED_CFGS)) if d.chance(0.7) else gen.config_d(d, allow_linkify=False)
     return {"src": src, "cfg": cfg}
 
 
